@@ -454,3 +454,75 @@ pub fn tr_color_indexing(image_data: &mut [u8], width: u16, height: u16, table_s
 
 /// VP8 parsing functions at component level (`vp8::verif_parse`): `Vp8Parser` wraps a real `Vp8Decoder`.
 pub use crate::vp8::verif_parse::{DecState, FrameState, MbState, ParseState, SegState, Vp8Parser};
+
+// ------------------------------------------------------------------------------------------------
+// VP8 intra prediction (check vp8predict)
+// ------------------------------------------------------------------------------------------------
+
+/// `vp8::predict_<which>` (`vpred hpred dcpred tmpred bdcpred bvepred bhepred bldpred brdpred bvrpred bvlpred bhdpred
+/// bhupred`) on a caller-built bordered workspace; returns the workspace afterwards.
+#[allow(clippy::too_many_arguments)]
+pub fn vp8_predict(
+    which: &str,
+    mut ws: Vec<u8>,
+    size: usize,
+    x0: usize,
+    y0: usize,
+    stride: usize,
+    above: bool,
+    left: bool,
+) -> Vec<u8> {
+    crate::vp8::verif_predict(which, &mut ws, size, x0, y0, stride, above, left);
+    ws
+}
+
+/// `vp8::topleft_pixel` / `top_pixels` / `left_pixels` / `edge_pixels` (`which` = `topleft top left edge`)
+pub fn vp8_pixels(which: &str, ws: &[u8], x0: usize, y0: usize, stride: usize) -> Vec<u8> {
+    crate::vp8::verif_pixels(which, ws, x0, y0, stride)
+}
+
+/// `vp8::add_residue`
+pub fn vp8_add_residue(mut ws: Vec<u8>, rblock: &[i32; 16], y0: usize, x0: usize, stride: usize) -> Vec<u8> {
+    crate::vp8::verif_add_residue(&mut ws, rblock, y0, x0, stride);
+    ws
+}
+
+/// `vp8::predict_4x4` (sub-block modes by their `i8` numbers)
+pub fn vp8_predict_4x4(mut ws: Vec<u8>, stride: usize, modes: &[i8], resdata: &[i32]) -> Vec<u8> {
+    crate::vp8::verif_predict_4x4(&mut ws, stride, modes, resdata);
+    ws
+}
+
+/// `vp8::create_border_luma`
+pub fn vp8_create_border_luma(mbx: usize, mby: usize, mbw: usize, top: &[u8], left: &[u8]) -> Vec<u8> {
+    crate::vp8::verif_create_border_luma(mbx, mby, mbw, top, left).to_vec()
+}
+
+/// `Vp8Decoder::intra_predict_luma`: (ybuf, top_border, left_border) afterwards
+#[allow(clippy::too_many_arguments)]
+pub fn vp8_intra_predict_luma(
+    mbw: u16,
+    mbx: usize,
+    mby: usize,
+    luma_mode: i8,
+    bpred: &[i8; 16],
+    resdata: &[i32],
+    ybuf: Vec<u8>,
+    top_border: Vec<u8>,
+    left_border: Vec<u8>,
+) -> (Vec<u8>, Vec<u8>, Vec<u8>) {
+    crate::vp8::verif_intra_predict_luma(mbw, mbx, mby, luma_mode, bpred, resdata, ybuf, top_border, left_border)
+}
+
+/// `Vp8Decoder::intra_predict_chroma` (the chroma border workspaces are built inline there): (ubuf, vbuf) afterwards
+pub fn vp8_intra_predict_chroma(
+    mbw: u16,
+    mbx: usize,
+    mby: usize,
+    chroma_mode: i8,
+    resdata: &[i32],
+    ubuf: Vec<u8>,
+    vbuf: Vec<u8>,
+) -> (Vec<u8>, Vec<u8>) {
+    crate::vp8::verif_intra_predict_chroma(mbw, mbx, mby, chroma_mode, resdata, ubuf, vbuf)
+}
